@@ -25,6 +25,8 @@ THEOREMS = [
     "TornadoModel.C04.chunk_oversize_rejected",
     "TornadoModel.C04.chunk_at_limit_ok",
     "TornadoModel.C04.gz_oversize_rejected",
+    "TornadoModel.C04.limits_monotone",
+    "TornadoModel.C04.limits_monotone_state",
 ]
 TRUSTED = base.TRUSTED + [
     "zlib / tornado.util.GzipDecompressor: only the contract 'unconsumed_tail is a suffix of the input' is used; the "
@@ -47,7 +49,7 @@ CLAUSES = {
     "chunked body larger than the limit refused": "chunk_oversize_rejected, chunk_at_limit_ok",
     "gzip body decompressing beyond the limit refused": "gz_oversize_rejected",
     "application is handed at most max_body_size body bytes": "delivered_le_limit, delivered_le_limit_eof, withinLimits_run (all streams, segmentations, overrides), gz_delivered_le_limit (all decompressor behaviours)",
-    "requests within the limits are unaffected": "tie only: limits_monotone_goal; boundary exactness by *_at_limit_ok; checked on every case against Spec.readAll",
+    "requests within the limits are unaffected": "limits_monotone, limits_monotone_state (raising the limits does not change a run that never closed); boundary exactness by *_at_limit_ok; checked on every case against Spec.readAll",
 }
 PARALLEL = True
 CASE_TIMEOUT = 120
